@@ -80,8 +80,8 @@ def dispatch_table(ctx, fn_path, adt):
             evs = []
             for bb in sorted(blocks):
                 evs += [e for e in io_events(B, bb, detail=False, subcalls=SUBCALLS_R)]
-            ok_blocks = [bb for bb in blocks if any(st['k'] == '=' and st['pl']['l'] == 0 and st['rv']['k'] == 'agg' and st['rv'].get('var') == 'Ok'
-                                                   for st in B.blocks[bb]['s'])]
+            ok_blocks = [bb for bb in blocks if any(st['k'] == '=' and st['rv']['k'] == 'agg' and st['rv'].get('var') == 'Ok' and str(st['rv'].get('adt')) == 'core::result::Result'
+                                                   and (st['pl']['l'] == 0 or 0 in B.derived_locals([st['pl']['l']])) for st in B.blocks[bb]['s'])]
             ent['error_arm'] = not ok_blocks
             ent['sigs'] = {tuple((e[1],) if e[0] in ('r', 'w') else (str(e[0]),) for e in evs)}
             vs = set()
